@@ -81,22 +81,23 @@ Example C06_realign_example :
    reference = [1;2]%Z ++ [3;4;1]%Z ++ vref v ++ [4;3;1;2]%Z ++ [3;3]%Z /\ vpos v = 2 + 3 /\
    query = [7]%Z ++ [3;4;1]%Z ++ get_allele v 1 ++ [4;3;1;2]%Z ++ [] /\
    1 = query_units pre /\ 4 = query_units (pre ++ LM) /\ is_symbolic v = false) /\
-  realign current_rules reference 3 v cig query 1 3 4 = Some (Some 1).
+  realign current_rules reference 3 v cig query 1 3 4 = Some (Some 1) /\
+  realign original_rules reference 3 v cig query 1 3 4 = Some (Some 1).
 Proof. vm_compute. repeat split; try reflexivity; try (repeat constructor); left; reflexivity. Qed.
 
 (* The same statement with reference skips (N) admitted as window ends -- i.e. with `window_end repaired_rules` in the
-   hypotheses -- is AlleleDetect.realign_correct_with_skips_statement R.  It holds for the repaired skip rule
-   (instance of the theorem above) and is refuted by the code as it is: cigar_prefix_length reports the *requested*
-   number of reference bases at an N, so the padded alleles extend across the skip.  Witness (found on the real
-   implementation by the correspondence check): reference TCTGCATCGTAGTCTCGC, deletion GC>G at 3, read TGCATCC aligned
-   6M5N1M at 2 carries REF -- ReadSetReader reports ALT. *)
-Theorem C06_realign_correct_with_skips_repaired : realign_correct_with_skips_statement repaired_rules.
-Proof. exact realign_with_skips_repaired. Qed.
-Print Assumptions C06_realign_correct_with_skips_repaired.
+   hypotheses -- is AlleleDetect.realign_correct_with_skips_statement R.  It holds for the code as it is now
+   (current_rules; skip rule repaired by fix 8735279) and was refuted by the code as it was (original_rules):
+   cigar_prefix_length reported the *requested* number of reference bases at an N, so the padded alleles extended
+   across the skip.  Witness (found on the real implementation by the correspondence check): reference
+   TCTGCATCGTAGTCTCGC, deletion GC>G at 3, read TGCATCC aligned 6M5N1M at 2 carries REF -- ReadSetReader reported ALT. *)
+Theorem C06_realign_correct_with_skips : realign_correct_with_skips_statement current_rules.
+Proof. exact realign_with_skips_current. Qed.
+Print Assumptions C06_realign_correct_with_skips.
 
-Theorem C06_realign_correct_with_skips_refuted : ~ realign_correct_with_skips_statement current_rules.
-Proof. exact realign_with_skips_current_refuted. Qed.
-Print Assumptions C06_realign_correct_with_skips_refuted.
+Theorem C06_realign_correct_with_skips_original_refuted : ~ realign_correct_with_skips_statement original_rules.
+Proof. exact realign_with_skips_original_refuted. Qed.
+Print Assumptions C06_realign_correct_with_skips_original_refuted.
 
 (* --- without reference --------------------------------------------------------------------------- *)
 
@@ -115,10 +116,10 @@ Print Assumptions C06_detect_noref_snv.
 
 (* The full reference-free statement: AlleleDetect.detect_noref_never_wrong_statement R (SNVs and pure insertions /
    deletions shown at the variant's normalised position, flanked by aligned bases).  Proved here: its SNV clause, for
-   every rule set.  Missing: the insertion/deletion clause for the repaired rules (validated by the correspondence
-   check only); for the code as it is that clause is refuted below. *)
+   every rule set.  Missing: the insertion/deletion clause for the code as it is now (validated by the
+   correspondence check only); for the code as it was (original_rules) that clause is refuted below. *)
 Definition C06_detect_noref_never_wrong_full_statement : Prop :=
-  detect_noref_never_wrong_statement repaired_rules.
+  detect_noref_never_wrong_statement current_rules.
 
 Theorem C06_detect_noref_never_wrong_partial :
   forall (R : rules) (variants : list variant) (start : nat) (cig : cigar) (query quals : list Z) (j a q : nat)
@@ -143,29 +144,31 @@ Example C06_detect_noref_example :
   query_index cig 1 3 = Some 4 /\ query_index cig 1 9 = Some 9.
 Proof. vm_compute. repeat split; repeat constructor. Qed.
 
-(* The code as it is refutes the insertion clause: at an I operation _detect_alleles queues every insertion variant
-   less than `length` bases downstream (ref_end = ref_pos + length).  Witness: reference GATCAGTC, listed insertion
-   C>CGG at 3, read GATTTCGGAGTC aligned 3M2I1M2I4M carries it behind an unrelated insertion TT -- reported: REF. *)
-Theorem C06_detect_noref_never_wrong_refuted : ~ detect_noref_never_wrong_statement current_rules.
-Proof. exact detect_noref_never_wrong_current_refuted. Qed.
-Print Assumptions C06_detect_noref_never_wrong_refuted.
+(* The code as it was refuted the insertion clause: at an I operation _detect_alleles queued every insertion variant
+   less than `length` bases downstream (ref_end = ref_pos + length; repaired by fix 064e8b6).  Witness: reference
+   GATCAGTC, listed insertion C>CGG at 3, read GATTTCGGAGTC aligned 3M2I1M2I4M carries it behind an unrelated
+   insertion TT -- reported: REF. *)
+Theorem C06_detect_noref_never_wrong_original_refuted : ~ detect_noref_never_wrong_statement original_rules.
+Proof. exact detect_noref_never_wrong_original_refuted. Qed.
+Print Assumptions C06_detect_noref_never_wrong_original_refuted.
 
 (* "No allele for a variant the read does not overlap" without reference
-   (AlleleDetect.detect_noref_only_overlapped_statement) is refuted by the code as it is: an insertion whose anchor is
-   the base immediately before the first aligned base is reported as REF.  Witness: reference GATCAGTC, insertion
-   C>CTT at 3, read AGTC aligned 4M at 4.  (With reference the clause is C06_iterate_cigar_sound.) *)
-Theorem C06_detect_noref_only_overlapped_refuted : ~ detect_noref_only_overlapped_statement current_rules.
-Proof. exact detect_noref_only_overlapped_current_refuted. Qed.
-Print Assumptions C06_detect_noref_only_overlapped_refuted.
+   (AlleleDetect.detect_noref_only_overlapped_statement) was refuted by the code as it was: an insertion whose anchor is
+   the base immediately before the first aligned base was reported as REF (repaired by fix 7e88262).  Witness: reference
+   GATCAGTC, insertion C>CTT at 3, read AGTC aligned 4M at 4.  (With reference the clause is C06_iterate_cigar_sound;
+   without reference it is not proved for the code as it is now, only validated by the correspondence check.) *)
+Theorem C06_detect_noref_only_overlapped_original_refuted : ~ detect_noref_only_overlapped_statement original_rules.
+Proof. exact detect_noref_only_overlapped_original_refuted. Qed.
+Print Assumptions C06_detect_noref_only_overlapped_original_refuted.
 
 (* --- read pairs ---------------------------------------------------------------------------------- *)
 
-(* "Both primary alignments of a pair contribute" (AlleleDetect.pair_keeps_both_mates_statement) is refuted by the code
-   as it is: create_read_from_group drops every alignment whose strand differs from the last primary one, i.e. one mate
-   of every forward/reverse pair. *)
-Theorem C06_pair_keeps_both_mates_refuted : ~ pair_keeps_both_mates_statement current_rules.
-Proof. exact pair_keeps_both_mates_current_refuted. Qed.
-Print Assumptions C06_pair_keeps_both_mates_refuted.
+(* "Both primary alignments of a pair contribute" (AlleleDetect.pair_keeps_both_mates_statement) was refuted by the code
+   as it was: create_read_from_group dropped every alignment whose strand differs from the last primary one, i.e. one
+   mate of every forward/reverse pair (repaired by fix ad24a2d). *)
+Theorem C06_pair_keeps_both_mates_original_refuted : ~ pair_keeps_both_mates_statement original_rules.
+Proof. exact pair_keeps_both_mates_original_refuted. Qed.
+Print Assumptions C06_pair_keeps_both_mates_original_refuted.
 
 (* "A single primary alignment keeps the alleles detected on it" (AlleleDetect.single_alignment_kept_statement) is
    refuted by the code as it is: AlignedRead.distance(primary, primary) is the reference span of the alignment, so an
@@ -175,36 +178,36 @@ Theorem C06_single_alignment_kept_refuted : ~ single_alignment_kept_statement cu
 Proof. exact single_alignment_kept_current_refuted. Qed.
 Print Assumptions C06_single_alignment_kept_refuted.
 
-(* the five witnesses at the level of ReadSetReader.read, under the rules of the code and under the repaired rules
-   (the first column is what the real implementation returns; confirmed by the correspondence check) *)
+(* the witnesses at the level of ReadSetReader.read, under the rules of the code as it was (what the real
+   implementation returned before the fix: commits; found by the correspondence check) and under the repaired rules *)
 Example C06_witnesses :
   let aln n rev start cig q := mkAln n false false false false rev 60 start cig q (map (fun _ => 30%Z) q) in
   (* skip: wrong allele *)
-  read_set_default current_rules (Some [84;67;84;71;67;65;84;67;71;84;65;71;84;67;84;67;71;67]%Z) 100000%Z
+  read_set_default original_rules (Some [84;67;84;71;67;65;84;67;71;84;65;71;84;67;84;67;71;67]%Z) 100000%Z
     [mkVar 3 [71;67]%Z [71]%Z] [aln 0 false 2 [(OpM, 6); (OpN, 5); (OpM, 1)] [84;71;67;65;84;67;67]%Z]
     = Some [(0, [(3, 1, 30)])] /\
   read_set_default repaired_rules (Some [84;67;84;71;67;65;84;67;71;84;65;71;84;67;84;67;71;67]%Z) 100000%Z
     [mkVar 3 [71;67]%Z [71]%Z] [aln 0 false 2 [(OpM, 6); (OpN, 5); (OpM, 1)] [84;71;67;65;84;67;67]%Z]
     = Some [(0, [(3, 0, 30)])] /\
   (* skip: AssertionError *)
-  read_set_default current_rules (Some [84;67;84;67;65;84;65;67;84;71;84;65;84;71]%Z) 100000%Z
+  read_set_default original_rules (Some [84;67;84;67;65;84;65;67;84;71;84;65;84;71]%Z) 100000%Z
     [mkVar 4 [65]%Z [84]%Z] [aln 0 false 4 [(OpM, 4); (OpN, 2); (OpM, 1)] [84;84;65;67;84]%Z] = None /\
   read_set_default repaired_rules (Some [84;67;84;67;65;84;65;67;84;71;84;65;84;71]%Z) 100000%Z
     [mkVar 4 [65]%Z [84]%Z] [aln 0 false 4 [(OpM, 4); (OpN, 2); (OpM, 1)] [84;84;65;67;84]%Z] = Some [(0, [(4, 1, 30)])] /\
   (* insertion at the start of the aligned block *)
-  read_set_default current_rules None 100000%Z [mkVar 3 [67]%Z [67;84;84]%Z] [aln 0 false 4 [(OpM, 4)] [65;71;84;67]%Z]
+  read_set_default original_rules None 100000%Z [mkVar 3 [67]%Z [67;84;84]%Z] [aln 0 false 4 [(OpM, 4)] [65;71;84;67]%Z]
     = Some [(0, [(3, 0, 30)])] /\
   read_set_default repaired_rules None 100000%Z [mkVar 3 [67]%Z [67;84;84]%Z] [aln 0 false 4 [(OpM, 4)] [65;71;84;67]%Z]
     = Some [] /\
   (* insertion behind an unrelated insertion *)
-  read_set_default current_rules None 100000%Z [mkVar 3 [67]%Z [67;71;71]%Z]
+  read_set_default original_rules None 100000%Z [mkVar 3 [67]%Z [67;71;71]%Z]
     [aln 0 false 0 [(OpM, 3); (OpI, 2); (OpM, 1); (OpI, 2); (OpM, 4)] [71;65;84;84;84;67;71;71;65;71;84;67]%Z]
     = Some [(0, [(3, 0, 30)])] /\
   read_set_default repaired_rules None 100000%Z [mkVar 3 [67]%Z [67;71;71]%Z]
     [aln 0 false 0 [(OpM, 3); (OpI, 2); (OpM, 1); (OpI, 2); (OpM, 4)] [71;65;84;84;84;67;71;71;65;71;84;67]%Z]
     = Some [(0, [(3, 1, 30)])] /\
   (* forward/reverse pair: GAGCA at 0 (+), GTACA at 5 (-), SNVs T>G at 2 and C>A at 7 *)
-  read_set_default current_rules (Some [71;65;84;67;65;71;84;67;67;65]%Z) 100000%Z [mkVar 2 [84]%Z [71]%Z; mkVar 7 [67]%Z [65]%Z]
+  read_set_default original_rules (Some [71;65;84;67;65;71;84;67;67;65]%Z) 100000%Z [mkVar 2 [84]%Z [71]%Z; mkVar 7 [67]%Z [65]%Z]
     [aln 0 false 0 [(OpM, 5)] [71;65;71;67;65]%Z; aln 0 true 5 [(OpM, 5)] [71;84;65;67;65]%Z]
     = Some [(0, [(7, 1, 30)])] /\
   read_set_default repaired_rules (Some [71;65;84;67;65;71;84;67;67;65]%Z) 100000%Z [mkVar 2 [84]%Z [71]%Z; mkVar 7 [67]%Z [65]%Z]
